@@ -203,6 +203,7 @@ TIERS = {
 }
 
 RACE_CHECKS = {"C07"}
+RACE_MIX = {"C15", "C14"}
 
 
 def known_path():
@@ -224,6 +225,8 @@ def run_check(prop, tier, seed):
     t0 = time.time()
     race = prop in RACE_CHECKS
     binp = build(race=race)
+    # some checks give every fourth worker a -race binary (reports between kevo's own accesses only)
+    race_binp = build(race=True) if prop in RACE_MIX else None
     budget = TIERS.get(prop, TIERS["default"])[0 if tier == "quick" else 1]
     budget = int(os.environ.get("VERIF_BUDGET_S", budget))
     outdir = tempfile.mkdtemp(prefix="kevosim-out.", dir=scratch_root())
@@ -248,7 +251,11 @@ def run_check(prop, tier, seed):
             if os.environ.get("KEVOSIM_MAXCASES"):
                 env["KEVOSIM_MAXCASES"] = os.environ["KEVOSIM_MAXCASES"]
             logf = open(os.path.join(outdir, "w%d.log" % w), "wb")
-            cmd = [binp, "-test.run", "^Test%s$" % prop, "-test.timeout", "%ds" % (budget * 4 + 600), "-test.cpu", "1"]
+            use = binp
+            if race_binp and w % 4 == 3:
+                use = race_binp
+                env["GORACE"] = "halt_on_error=0 log_path=%s" % os.path.join(outdir, "race.w%d" % w)
+            cmd = [use, "-test.run", "^Test%s$" % prop, "-test.timeout", "%ds" % (budget * 4 + 600), "-test.cpu", "1"]
             p = subprocess.Popen(cmd, env=env, stdout=subprocess.DEVNULL, stderr=logf, cwd=outdir,
                                  preexec_fn=lambda: __import__("resource").setrlimit(__import__("resource").RLIMIT_AS, (24 << 30, 24 << 30)))
             procs.append((w, p, logf))
@@ -367,7 +374,7 @@ ASSUME = ["instrumentation by source rewriting preserves kevo's logic (imports, 
 def replay(path):
     rf = json.load(open(path))
     prop = rf["property"]
-    binp = build(race=prop in RACE_CHECKS)
+    binp = build(race=prop in RACE_CHECKS or ((rf.get("violation") or {}).get("kind") == "data-race"))
     outdir = tempfile.mkdtemp(prefix="kevosim-out.", dir=scratch_root())
     try:
         env = dict(ENV)
